@@ -36,7 +36,7 @@ ASSUMPTIONS = c01.ASSUMPTIONS[:3] + [
     "where the ordering graph has a false cycle (open finding C01-false-cycle) the order inside the cycle depends on dict insertion order, hence on history: follow-up differences on such a location are matched by the C01 signature",
 ]
 BOUNDS = {
-    "quick": "histories of <=3 operations (value / expression / += / -= ref / unregister / load / register) over {a,n.x,n.y,n.z} and over {a,b,l0,l1}, "
+    "quick": "histories of <=3 operations (value / expression / += / -= ref / unregister / load / register) over {a,n.x,n.y}, <=2 over {a,n.x,n.y,n.z} and over {a,b,l0,l1}, "
              "indices/queries/verify compared after every step; follow-up assignment (history manager, refreshed copy, fresh manager) to each location of the universe + one outside it after histories of every length 1..3",
     "thorough": "histories <=4 over the same universes and <=3 over {a,b,n.x,n.y,l0,l1}; both builds",
 }
@@ -316,7 +316,7 @@ def cases(tier):
     nest = ["a", "n.x", "n.y", "n.z"]
     lst = ["a", "b", "l0", "l1"]
     if tier == "quick":
-        return (_cases("pure", nest, 3) + _cases("pure", nest, 2) + _cases("pure", nest, 1)
+        return (_cases("pure", ["a", "n.x", "n.y"], 3) + _cases("pure", nest, 2) + _cases("pure", nest, 1)
                 + _cases("pure", lst, 2) + _cases("pure", lst, 1))
     out = []
     for b in ("pure", "compiled"):
